@@ -863,7 +863,7 @@ impl ExecutionEngine {
                             values
                                 .iter()
                                 .filter_map(|value| value.parse::<f64>().ok())
-                                .sum::<f64>()
+                                .fold(0.0, |total, value| total + value)
                                 .to_string(),
                         ),
                         "AVG" => {
